@@ -20,6 +20,8 @@ DECIDED_MORE = ('Also: no shared writes on the signing / verifying path.')
 DECIDED = DECIDED + ' ' + DECIDED_MORE
 DECIDED_R6 = ('Round 6: per-position comparison term is 0 for equal bytes and positive otherwise; every environ store is followed by the change event; no two responses share a jar while apply() refills in place.')
 DECIDED = DECIDED + ' ' + DECIDED_R6
+DECIDED_R7 = ('Round 7: the authenticated message is the unaltered piece from the split; writer and reader agree on when a cookie is signed; get_cookie only reads the jar.')
+DECIDED = DECIDED + ' ' + DECIDED_R7
 NOT_DECIDED = ('round trip of plain cookie text through http.cookies.SimpleCookie quoting (library value semantics); '
                'strength of HMAC-MD5 (assumed unforgeable without the secret).')
 ASSUMPTIONS = ['HMAC is unforgeable without the secret', 'base64.b64encode is canonical (one text per byte string)']
